@@ -8,6 +8,7 @@ import (
 	"strings"
 	"testing"
 	"testing/synctest"
+	"time"
 
 	"github.com/buildbarn/bb-remote-execution/pkg/proto/buildqueuestate"
 	"github.com/buildbarn/bb-remote-execution/pkg/scheduler"
@@ -60,6 +61,7 @@ type run struct {
 	hist     *hx.Result
 	prevSt   *scheduler.VerifState // state before the current segment (for per-decision checks)
 	noModel  bool                  // monitor-only mode: used to search for a failing input after a mismatch
+	onlyProp string                // when set, findings and structural invariants of other properties do not end the run
 }
 
 type failure struct {
@@ -75,6 +77,9 @@ type streamMon struct {
 }
 
 func (r *run) failf(kind, prop, name, format string, args ...any) {
+	if r.onlyProp != "" && kind == "violation" && prop != "" && prop != r.onlyProp {
+		return
+	}
 	if r.fail == nil {
 		r.fail = &failure{kind: kind, prop: prop, name: name, what: fmt.Sprintf(format, args...)}
 	}
@@ -288,10 +293,17 @@ func (r *run) apply(line string) {
 		return
 	}
 	an := "sel=0 bg=- retry=0"
-	w.an.sel, w.an.bg, w.an.retry = 0, -1, false
+	w.an.sel, w.an.bg, w.an.retry, w.an.dur = 0, -1, false, 0
+	var stick []time.Duration // regpq only: worker invocation stickiness limits (seconds); not part of the Sched model
 	for _, f := range kv {
 		p := strings.SplitN(f, "=", 2)
 		switch p[0] {
+		case "dur": // expected duration class reported by the scripted selector; not part of the Sched model
+			w.an.dur, _ = strconv.Atoi(p[1])
+		case "stick":
+			for _, x := range ints(p[1]) {
+				stick = append(stick, time.Duration(x)*time.Second)
+			}
 		case "sel":
 			w.an.sel, _ = strconv.Atoi(p[1])
 		case "bg":
@@ -331,7 +343,7 @@ func (r *run) apply(line string) {
 			for i, s := range sizes {
 				usizes[i] = uint32(s)
 			}
-			w.bq.RegisterPredeclaredPlatformQueue(mustInstance(compsToInstance(comps)), platformMsg(plat), nil, atoi(a[3]), int32(atoi(a[4])), usizes)
+			w.bq.RegisterPredeclaredPlatformQueue(mustInstance(compsToInstance(comps)), platformMsg(plat), stick, atoi(a[3]), int32(atoi(a[4])), usizes)
 			w.pqID(comps, plat)
 			return
 		}
@@ -341,9 +353,7 @@ func (r *run) apply(line string) {
 		for i, s := range sizes {
 			usizes[i] = uint32(s)
 		}
-		var limits []int
-		_ = limits
-		if err := w.bq.RegisterPredeclaredPlatformQueue(mustInstance(compsToInstance(comps)), platformMsg(plat), nil, atoi(a[3]), int32(atoi(a[4])), usizes); err != nil {
+		if err := w.bq.RegisterPredeclaredPlatformQueue(mustInstance(compsToInstance(comps)), platformMsg(plat), stick, atoi(a[3]), int32(atoi(a[4])), usizes); err != nil {
 			return
 		}
 		out, _ := r.drv.Ask(fmt.Sprintf("regpq %d %s %d %s %s %s", w.pqID(comps, plat), intsStr(comps), plat, intsStr(sizes), a[3], a[4]))
@@ -590,6 +600,7 @@ func runHistory(t *testing.T, drv *hx.Driver, lines []string, quiesce bool) *run
 		}
 		r.endBubble()
 	})
+	r.finish()
 	return r
 }
 
